@@ -4811,6 +4811,20 @@ type PolicyAssignment struct {
 	Default  RouteType
 }
 
+// ToOriginApi gives the API form of the origin a statement's origin condition
+// compares with; unspecified when the statement has no such condition.
+func ToOriginApi(o oc.BgpOriginAttrType) api.OriginType {
+	switch o {
+	case oc.BGP_ORIGIN_ATTR_TYPE_IGP:
+		return api.OriginType_ORIGIN_TYPE_IGP
+	case oc.BGP_ORIGIN_ATTR_TYPE_EGP:
+		return api.OriginType_ORIGIN_TYPE_EGP
+	case oc.BGP_ORIGIN_ATTR_TYPE_INCOMPLETE:
+		return api.OriginType_ORIGIN_TYPE_INCOMPLETE
+	}
+	return api.OriginType_ORIGIN_TYPE_UNSPECIFIED
+}
+
 func ToComparisonApi(c oc.AttributeComparison) api.Comparison {
 	switch c {
 	case oc.ATTRIBUTE_COMPARISON_ATTRIBUTE_EQ, oc.ATTRIBUTE_COMPARISON_EQ:
@@ -4849,16 +4863,7 @@ func toStatementApi(s *oc.Statement) *api.Statement {
 			Type:  ToComparisonApi(s.Conditions.BgpConditions.CommunityCount.Operator),
 		}
 	}
-	if s.Conditions.BgpConditions.OriginEq.ToInt() != -1 {
-		switch s.Actions.BgpActions.SetRouteOrigin {
-		case oc.BGP_ORIGIN_ATTR_TYPE_IGP:
-			cs.Origin = api.OriginType_ORIGIN_TYPE_IGP
-		case oc.BGP_ORIGIN_ATTR_TYPE_EGP:
-			cs.Origin = api.OriginType_ORIGIN_TYPE_EGP
-		case oc.BGP_ORIGIN_ATTR_TYPE_INCOMPLETE:
-			cs.Origin = api.OriginType_ORIGIN_TYPE_INCOMPLETE
-		}
-	}
+	cs.Origin = ToOriginApi(s.Conditions.BgpConditions.OriginEq)
 	if s.Conditions.BgpConditions.AsPathLength.Operator != "" {
 		cs.AsPathLength = &api.AsPathLength{
 			Length: s.Conditions.BgpConditions.AsPathLength.Value,
